@@ -126,7 +126,13 @@ def run_one(job):
 def main():
     args = sys.argv[1:]
     jobs_n, mx, only = 4, None, None
+    survivors, scale = None, 1
     for i, a in enumerate(args):
+        if a == "--survivors-of":       # re-run only the survivors of an earlier run, with a larger budget
+            prev = json.load(open(args[i + 1]))
+            survivors = {(r["file"], r["function"], r["mutation"]) for r in prev["results"] if r["outcome"] in ("SURVIVED", "HARNESS")}
+        if a == "--scale":
+            scale = int(args[i + 1])
         if a == "--jobs":
             jobs_n = int(args[i + 1])
         if a == "--max":
@@ -140,11 +146,13 @@ def main():
         for fname, flineno, idx, desc, action in muts:
             if only and only not in fname and only not in desc:
                 continue
+            if survivors is not None and (relfile, fname, desc) not in survivors:
+                continue
             code = build(relfile, tree, fname, flineno, idx, action)
             if code is None or code in seen:
                 continue
             seen.add(code)
-            jobs.append((relfile, checks, runs, fname, desc, code))
+            jobs.append((relfile, checks, ",".join(str(int(x) * scale) for x in runs.split(",")), fname, desc, code))
     if mx:
         import random
         random.Random(0).shuffle(jobs)
@@ -163,7 +171,7 @@ def main():
     os.makedirs(os.path.join(VERIF, "selftest"), exist_ok=True)
     json.dump({"repo_head": subprocess.run(["git", "-C", REPO, "rev-parse", "--short", "HEAD"], capture_output=True, text=True).stdout.strip(),
                "counts": dict(c), "results": [{"file": r[0], "function": r[1], "mutation": r[2], "outcome": r[3], "by": r[4]} for r in res]},
-              open(os.path.join(VERIF, "selftest", "automutate_last.json"), "w"), indent=1)
+              open(os.path.join(VERIF, "selftest", "automutate_last.json" if survivors is None else "automutate_survivors_rerun.json"), "w"), indent=1)
 
 
 if __name__ == "__main__":
